@@ -163,5 +163,5 @@ func tokensH(line string) string {
 		}
 		ts = append(ts, n+"#"+t.w+"#"+strconv.Itoa(t.pos.Line())+"."+strconv.Itoa(t.pos.Col()))
 	}
-	return "ok T=" + strings.Join(ts, "@") + " H=" + strings.Join(hereBodies(r.cmds), "|") + " K=" + skCmds(r.cmds) + " E=" + fmtErr(r.err) + " R=" + strconv.Itoa(r.rest)
+	return "ok T=" + strings.Join(ts, "@") + " H=" + strings.Join(hereBodies(r.cmds), "|") + " K=" + skCmds(r.cmds) + " M=" + fmtComments(r.comments) + " E=" + fmtErr(r.err) + " R=" + strconv.Itoa(r.rest)
 }
